@@ -26,6 +26,8 @@ func init() {
 		Run:      runC20,
 		Thorough: thoroughC20,
 		Mutants: []Mutant{
+			{Name: "responder-maps-ranged-after-unlock", File: "internal/layer2/announcer.go",
+				Old: "func (a *Announce) gratuitous(adv IPAdvertisement) {\n\ta.RLock()\n\tdefer a.RUnlock()\n\n\tip := adv.ip\n\tif a.ipRefcnt[ip.String()] <= 0 {\n\t\t// We've lost control of the IP, someone else is\n\t\t// doing announcements.\n\t\treturn\n\t}\n\n\tif ip.To4() != nil {\n\t\tfor _, client := range a.arps {", New: "func (a *Announce) gratuitous(adv IPAdvertisement) {\n\ta.RLock()\n\tip := adv.ip\n\tif a.ipRefcnt[ip.String()] <= 0 {\n\t\ta.RUnlock()\n\t\treturn\n\t}\n\tarps := a.arps\n\ta.RUnlock()\n\n\tif ip.To4() != nil {\n\t\tfor _, client := range arps {", Expect: "LOCK-GUARDED"},
 			{Name: "hold-time-truncated-in-place", File: "internal/bgp/native/native.go",
 				Old: "\tret := &session{\n\t\tSessionParameters: sessionsParams,",
 				New: "\t*sessionsParams.HoldTime = sessionsParams.HoldTime.Truncate(time.Second)\n\tret := &session{\n\t\tSessionParameters: sessionsParams,", Expect: "store-through-field"},
@@ -68,6 +70,7 @@ func init() {
 }
 
 func runC20(p *chk.Prog, r *chk.Report) {
+	c05Build(p, r)
 	c20Entry(p, r)
 	x := r.Rule("LOCK-GUARDED", "C locks (must-hold lockset dataflow)", "every access to a field of the frozen guarded-by table (Allocator.poolToCounters / countersMutex; bgpController.activeAds / activeAdsMutex; Announce.{nodeInterfaces,arps,ndps,ips,ipRefcnt} and ndpResponder.solicitedNodeGroups / Announce's RWMutex; SpeakerList.mlSpeakerIPs / mlMux) is made with the lock held, in write mode for writes; constructors are exempt until the object is shared", 40)
 	guardedRule(x, p, guardTable)
